@@ -208,7 +208,7 @@ def run_worker(root, variant, cases_p, out_p):
     p = subprocess.run([sys.executable, os.path.join(VERIF, "harness", "c19worker.py"), root, variant, cases_p, out_p],
                        capture_output=True, text=True, timeout=3600, env=dict(os.environ, PYTHONHASHSEED="0"))
     if p.returncode != 0:
-        return None, p.stderr[-2000:]
+        return None, "[exit %d] " % p.returncode + p.stderr[-2000:]
     return pickle.load(open(out_p, "rb")), ""
 
 
@@ -287,8 +287,15 @@ def run(ctx):
                           "(exit %s, %d shared libraries): %s" % (rc, len(sos), log[-1500:]), {"log_tail": log[-3000:]})
             return
         res = {}
-        for variant, root in (("compiled", dst), ("python", REPO), ("numba", REPO), ("pythran", REPO)):
+        for variant, root in (("python", REPO), ("compiled", dst), ("numba", REPO), ("pythran", REPO)):
             out, err = run_worker(root, variant, cp, os.path.join(work, variant + ".pkl"))
+            if out is None and variant == "compiled" and err.startswith("[exit -"):
+                # the interpreted sources ran every case; the process running the pyccel-built kernels on the same cases was killed by a
+                # signal (memory corruption / out-of-bounds access in generated code): the builds do not compute the same thing
+                ctx.violation({"kind": "compiled-kernels-crash", "variant": "compiled"},
+                              "the worker running the pyccel-built kernels died %s while the interpreted sources complete all %d cases" % (err[:200], len(cases)),
+                              {"stderr": err})
+                return
             if out is None:
                 raise Machinery("worker %s failed: %s" % (variant, err))
             res[variant] = out
